@@ -150,7 +150,7 @@ where
 
     fn update_current_values(&mut self) {
         if let Some(timeline) = self.timelines.get(&self.current_state) {
-            timeline.update(&mut self.current_values, self.state_duration.as_secs_f32());
+            timeline.update(&mut self.current_values, self.state_duration.as_secs_f64() as f32);
         }
     }
 }
@@ -205,7 +205,7 @@ where
         let Some(current_timeline) = self.timelines.get(&self.current_state) else {
             return true;
         };
-        self.state_duration.as_secs_f32() >= current_timeline.duration()
+        self.state_duration.as_secs_f64() as f32 >= current_timeline.duration()
     }
 
     fn set_state(&mut self, state: &State) {
